@@ -1,14 +1,98 @@
-(* C17 — proofs about the model (see Properties.v for the exported statements). *)
+(* C17 — the statements exported by Properties.v, assembled from the passes. *)
 From Coq Require Import List ZArith Bool Lia.
-From Verif Require Import C17.Model C17.Spec.
+From Verif Require Import C17.Model C17.Spec C17.Codec C17.Hoare C17.Proofs_once C17.Proofs_guard
+  C17.Proofs_frame C17.Proofs_trace C17.Proofs_spec.
 Import ListNotations.
 Open Scope Z_scope.
 
-(* terminal phases short-circuit: the reconcile is the identity and records nothing *)
+(* ---- one reconcile, any state, any faults ---- *)
 Lemma reconcile_terminal fx s f :
   terminal (phase (sj s)) = true -> reconcile fx s f = (s, []).
+Proof. exact (reconcile_terminal_eq fx s f). Qed.
+
+Lemma reconcile_evict_guard s f x :
+  direct (sj s) = false -> In x (snd (reconcile true s f)) -> is_evict x = true ->
+  secured (est x) /\ other_node (est x).
 Proof.
-  intros T. unfold reconcile. destruct (ignored (sj s) (sgen s)); [reflexivity|].
-  unfold do_migrate. cbn [cj]. rewrite T.
-  destruct (paused (sj s)); cbn [ctx_of cj cr ce]; destruct s; reflexivity.
+  intros D I E. destruct (reconcile_guard true s f x D I E) as (S & [N|(F & _)]); [auto|discriminate].
 Qed.
+
+Lemma reconcile_evict_guard_old s f x :
+  direct (sj s) = false -> In x (snd (reconcile false s f)) -> is_evict x = true ->
+  secured (est x) /\ (other_node (est x) \/ check_cached (sj s) = true).
+Proof.
+  intros D I E. destruct (reconcile_guard false s f x D I E) as (S & [N|(_ & C)]); auto.
+Qed.
+
+Lemma reconcile_timeout fx s f :
+  timed_out (sj s) (sj (fst (reconcile fx s f))) = true -> rref (sj s) = true ->
+  sr (fst (reconcile fx s f)) = None.
+Proof. apply (reconcile_frame fx s f). Qed.
+
+Lemma reconcile_no_faults_once fx s f : existsb (fun b => b) f = false ->
+  (length (filter is_evict (snd (reconcile fx s f))) <= 1)%nat
+  /\ (cEv (sj s) = C_TRUE \/ cEv (sj s) = C_FALSE ->
+      filter is_evict (snd (reconcile fx s f)) = []
+      /\ (cEv (sj (fst (reconcile fx s f))) = C_TRUE \/ cEv (sj (fst (reconcile fx s f))) = C_FALSE)).
+Proof.
+  intros NF. destruct (reconcile_once fx s f NF) as (L & O & K). split; [exact L|].
+  intros E. split; [|exact (K E)].
+  unfold nev in *. destruct (filter is_evict (snd (reconcile fx s f))) as [|a [|b t]] eqn:F; auto.
+  - destruct (O eq_refl) as (N & _). contradiction.
+  - cbn in L. lia.
+Qed.
+
+(* ---- all histories, from the job as created ---- *)
+Theorem holds_all_histories j0 ops : C17_holds j0 ops (observe_fx true j0 ops).
+Proof.
+  rewrite observe_fx_eq. unfold C17_holds.
+  repeat match goal with |- _ /\ _ => split end.
+  - apply obs_length.
+  - intros D o e Io Ie Ev. apply (trace_guard true ops (init_state j0) D o e Io Ie Ev).
+  - apply (trace_absorbing true ops (init_state j0)).
+  - apply (trace_timeout true ops (init_state j0)).
+  - apply trace_once.
+  - apply (trace_frame true ops (init_state j0)).
+  - intros D o e Io Ie Ev. apply (trace_guard true ops (init_state j0) D o e Io Ie Ev). reflexivity.
+Qed.
+
+Theorem prop_code_model j0 ops : prop_code j0 ops (observe j0 ops) = 0.
+Proof. apply prop_code_spec. exact (holds_all_histories j0 ops). Qed.
+
+(* ---- the variant before commit 025e424 (regression record of the finding) ---- *)
+Theorem old_only_known_shape j0 ops :
+  prop_code j0 ops (observe_fx false j0 ops) = 0 \/ finding_code j0 ops (observe_fx false j0 ops) = 1.
+Proof.
+  assert (P : prop_code j0 ops (observe_fx false j0 ops) = 0 \/ prop_code j0 ops (observe_fx false j0 ops) = 7).
+  { rewrite observe_fx_eq. apply prop_code_7.
+    - apply obs_length.
+    - intros D o e Io Ie Ev. apply (trace_guard false ops (init_state j0) D o e Io Ie Ev).
+    - apply (trace_absorbing false ops (init_state j0)).
+    - apply (trace_timeout false ops (init_state j0)).
+    - apply trace_once.
+    - apply (trace_frame false ops (init_state j0)). }
+  destruct P as [P|P]; [left; exact P|right].
+  unfold finding_code. rewrite P. cbn.
+  destruct (direct j0) eqn:D.
+  - exfalso. unfold prop_code in P.
+    destruct (negb (Nat.eqb _ _)); [discriminate|].
+    destruct (negb (evict_guardb _ _)); [discriminate|].
+    destruct (negb (absorbingb _ _)); [discriminate|].
+    destruct (negb (timeout_deletesb _ _)); [discriminate|].
+    destruct (negb (at_most_onceb _ _)); [discriminate|].
+    destruct (negb (frameb _ _ _)); [discriminate|].
+    unfold evict_other_nodeb in P. rewrite D in P. cbn in P. discriminate.
+  - rewrite observe_fx_eq. pose proof (trace_shape_old ops (init_state j0) D) as Sh.
+    cbn [init_state sj] in Sh. rewrite Sh. reflexivity.
+Qed.
+
+(* the corpus case f1: pod u1 on n1, reservation scheduled on n2, the eviction call fails once,
+   the pod is replaced by u2 on n2, the retry evicts it *)
+Definition witness_f1 : list Z :=
+  [0;0;0;1;1;0;0;6; 2;1;1;1;2;1;0;0;0;0;0; 0;0;0;0;0;0;0;0;0;0;0; 1;1;1;2;2;1;0;1;0;0;0;
+   0;4;0;0;0;0;0;0;0;0;0; 2;1;2;2;2;1;0;0;0;0;0; 0;0;0;0;0;0;0;0;0;0;0].
+
+Theorem old_other_node_refuted :
+  exists inp, let '(j0, ops) := decode inp in
+    prop_code j0 ops (observe_fx false j0 ops) = 7 /\ prop_code j0 ops (observe_fx true j0 ops) = 0.
+Proof. exists witness_f1. vm_compute. split; reflexivity. Qed.
